@@ -155,13 +155,17 @@ def lookupFold (T : Tab) (k : Str) : List (Str × Str) → Option Str
   | [] => none
   | (k', v) :: r => if T.foldS k' = T.foldS k then some v else lookupFold T k r
 
+def optStr : Option Str → Str
+  | some s => s
+  | none => []
+
 /-- mirrors to_wbem_uri: host / namespace / classname part (identical in both classes) -/
 def headStr (T : Tab) (fmt : Fmt) (host ns : Option Str) (cls : Str) : Str :=
   (match host with
    | some h => if fmt ≠ .cimobject then '/' :: '/' :: caseOf T fmt h else []
    | none => []) ++
   (if host.isSome || (fmt ≠ .cimobject && fmt ≠ .historical) then ['/'] else []) ++
-  (match ns with | some n => caseOf T fmt n | none => []) ++
+  optStr (ns.map (caseOf T fmt)) ++
   (if ns.isSome || fmt ≠ .historical then [':'] else []) ++
   caseOf T fmt cls
 
@@ -205,6 +209,27 @@ def toUriClass (T : Tab) (fmt : Fmt) (p : ClassPath) : Str := headStr T fmt p.ho
 
 def isDigit (c : Char) : Bool := '0'.toNat ≤ c.toNat && c.toNat ≤ '9'.toNat
 def digitVal (c : Char) : Nat := c.toNat - 48
+
+/-- `e[+-]digits` -/
+def isExpPart : Str → Bool
+  | 'e' :: s :: ds => (s == '+' || s == '-') && ds ≠ [] && ds.all isDigit
+  | _ => false
+
+def stripMinus : Str → Str
+  | '-' :: t => t
+  | s => s
+
+/-- the shapes CPython's `repr(float)` produces: `inf`, `-inf`, `nan`, `[-]d+.d+`, `[-]d+[.d+]e[+-]d+`
+    (a fact about CPython; the harness checks it on every float it generates) -/
+def isFloatRepr (r : Str) : Bool :=
+  let b := stripMinus r
+  r == "inf".toList || r == "-inf".toList || r == "nan".toList ||
+  (b.takeWhile isDigit ≠ [] &&
+   match b.dropWhile isDigit with
+   | '.' :: f => f.takeWhile isDigit ≠ [] && (f.dropWhile isDigit == [] || isExpPart (f.dropWhile isDigit))
+   | 'e' :: x => isExpPart ('e' :: x)
+   | _ => false)
+
 def isBinDigit (c : Char) : Bool := c == '0' || c == '1'
 def isOct17 (c : Char) : Bool := '1'.toNat ≤ c.toNat && c.toNat ≤ '7'.toNat
 def isHexDigit (c : Char) : Bool :=
@@ -508,23 +533,28 @@ def kbVals (T : Tab) (rec : Str → Except PyExc Path) : List (Str × Str) → E
       | .error e => .error e
       | .ok l => .ok ((k, x) :: l)
 
-/-- the part of from_wbem_uri after WBEM_URI_INSTANCEPATH_REGEXP matched -/
-def fromUriStep (T : Tab) (rec : Str → Except PyExc Path) (s : Str) : Except PyExc Path :=
+/-- WBEM_URI_INSTANCEPATH_REGEXP and WBEM_URI_KEYBINDINGS_REGEXP applied to `s`:
+    (host / namespace, class name, (key, value text) pairs), or `none` when one of them does not match -/
+def stepPrefix (T : Tab) (s : Str) : Option (Head × Str × List (Str × Str)) :=
   match parseHead T s with
-  | none => .error .valueError
+  | none => none
   | some h =>
-    let c := h.rest.takeWhile T.word
     match h.rest.dropWhile T.word with
     | '.' :: body =>
-      let kb := body.takeWhile (· != '\n')           -- `(.+)$`
-      if c = [] || kb = [] || !atEnd (body.dropWhile (· != '\n')) then .error .valueError else
-      match scanAssigns T (kb.length + 1) kb with
-      | none => .error .valueError
-      | some assigns =>
-        match kbVals T rec assigns with
-        | .error e => .error e
-        | .ok kvs => .ok (.mk h.host h.ns c (buildKeys T kvs))
-    | _ => .error .valueError
+      -- `(.+)$`
+      if h.rest.takeWhile T.word = [] || body.takeWhile (· != '\n') = [] || !atEnd (body.dropWhile (· != '\n')) then none
+      else (scanAssigns T ((body.takeWhile (· != '\n')).length + 1) (body.takeWhile (· != '\n'))).map
+            (fun assigns => (h, h.rest.takeWhile T.word, assigns))
+    | _ => none
+
+/-- from_wbem_uri with the nested attempt `rec` -/
+def fromUriStep (T : Tab) (rec : Str → Except PyExc Path) (s : Str) : Except PyExc Path :=
+  match stepPrefix T s with
+  | none => .error .valueError
+  | some (h, c, assigns) =>
+    match kbVals T rec assigns with
+    | .error e => .error e
+    | .ok kvs => .ok (.mk h.host h.ns c (buildKeys T kvs))
 
 /-- mirrors CIMInstanceName.from_wbem_uri.  Fuel counts nesting levels of quoted reference
     values; `fromUri` supplies `s.length + 1`, which always suffices (theorem `C07_fromUri_total`:
